@@ -1,0 +1,278 @@
+//! Verification hooks, compiled only with `--cfg log4rs_verif`.
+//!
+//! Nothing in here changes behaviour of the normal build: the module does not
+//! exist unless the guard is on.  It provides (a) door-openers that expose
+//! private units to an external harness crate without changing them and
+//! (b) small explicit models of library containers/services that the bounded
+//! model checker cannot execute (hash tables with SIMD probing, thread-local
+//! based synchronisation).  Each model states the contract it relies on.
+#![allow(missing_docs, dead_code, clippy::all)]
+
+use std::sync::{Arc, Mutex};
+
+use log::{Level, LevelFilter, Record};
+
+use crate::{append::Append, filter::Filter};
+
+// --------------------------------------------------------------------------
+// E1: association-list models of the hash containers.
+//
+// Contract relied upon: a map holds at most one value per key, `get*` finds
+// the value last inserted for an equal key, iteration visits every entry once
+// (order unspecified - the only iterating caller, `max_log_level`, is order
+// insensitive).  Keys are compared bytewise with an explicit loop.
+// --------------------------------------------------------------------------
+
+fn bytes_eq(a: &[u8], b: &[u8]) -> bool {
+    if a.len() != b.len() {
+        return false;
+    }
+    let mut i = 0;
+    while i < a.len() {
+        if a[i] != b[i] {
+            return false;
+        }
+        i += 1;
+    }
+    true
+}
+
+#[derive(Debug)]
+pub struct VecMap<K, V> {
+    entries: Vec<(K, V)>,
+}
+
+impl<K, V> Default for VecMap<K, V> {
+    fn default() -> Self {
+        VecMap {
+            entries: Vec::new(),
+        }
+    }
+}
+
+impl<K: AsRef<[u8]>, V> VecMap<K, V> {
+    pub fn new() -> Self {
+        Self::default()
+    }
+
+    pub fn get<Q: ?Sized + AsRef<[u8]>>(&self, k: &Q) -> Option<&V> {
+        for (key, v) in self.entries.iter() {
+            if bytes_eq(key.as_ref(), k.as_ref()) {
+                return Some(v);
+            }
+        }
+        None
+    }
+
+    pub fn get_mut<Q: ?Sized + AsRef<[u8]>>(&mut self, k: &Q) -> Option<&mut V> {
+        for (key, v) in self.entries.iter_mut() {
+            if bytes_eq(key.as_ref(), k.as_ref()) {
+                return Some(v);
+            }
+        }
+        None
+    }
+
+    pub fn insert(&mut self, k: K, v: V) -> Option<V> {
+        if let Some(slot) = self.get_mut(&k) {
+            return Some(std::mem::replace(slot, v));
+        }
+        self.entries.push((k, v));
+        None
+    }
+
+    pub fn values(&self) -> impl Iterator<Item = &V> {
+        self.entries.iter().map(|e| &e.1)
+    }
+
+    pub fn len(&self) -> usize {
+        self.entries.len()
+    }
+}
+
+impl<K: AsRef<[u8]>, V> std::iter::FromIterator<(K, V)> for VecMap<K, V> {
+    fn from_iter<I: IntoIterator<Item = (K, V)>>(iter: I) -> Self {
+        let mut m = VecMap::default();
+        for (k, v) in iter {
+            m.insert(k, v);
+        }
+        m
+    }
+}
+
+impl<'q, K: AsRef<[u8]>, V, Q: ?Sized + AsRef<[u8]>> std::ops::Index<&'q Q> for VecMap<K, V> {
+    type Output = V;
+    fn index(&self, k: &'q Q) -> &V {
+        self.get(k).expect("no entry found for key")
+    }
+}
+
+#[derive(Debug, Default)]
+pub struct VecSet<K> {
+    entries: Vec<K>,
+}
+
+impl<K: AsRef<[u8]>> VecSet<K> {
+    pub fn new() -> Self {
+        VecSet {
+            entries: Vec::new(),
+        }
+    }
+
+    pub fn contains<Q: ?Sized + AsRef<[u8]>>(&self, k: &Q) -> bool {
+        for key in self.entries.iter() {
+            if bytes_eq(key.as_ref(), k.as_ref()) {
+                return true;
+            }
+        }
+        false
+    }
+
+    /// `true` if the value was not present before.
+    pub fn insert(&mut self, k: K) -> bool {
+        if self.contains(&k) {
+            return false;
+        }
+        self.entries.push(k);
+        true
+    }
+}
+
+// --------------------------------------------------------------------------
+// E2: model of `arc_swap::ArcSwap`.
+//
+// Contract relied upon: `load` returns a snapshot that stays valid and
+// unchanged while it is held; `store` replaces the value atomically.  Before
+// and after every `load`/`store` the model calls the installed yield function
+// so that a harness can run "the other thread" at exactly those points.
+// --------------------------------------------------------------------------
+
+pub static mut YIELD: Option<fn(u8)> = None;
+
+/// Yield-point kinds passed to the installed function.
+pub const Y_BEFORE_LOAD: u8 = 0;
+pub const Y_AFTER_LOAD: u8 = 1;
+pub const Y_BEFORE_STORE: u8 = 2;
+pub const Y_AFTER_STORE: u8 = 3;
+
+fn yield_point(kind: u8) {
+    // single harness thread; the function pointer is only set by the harness
+    let f = unsafe { YIELD };
+    if let Some(f) = f {
+        f(kind);
+    }
+}
+
+pub struct ArcSwap<T> {
+    cell: Mutex<Arc<T>>,
+}
+
+impl<T> std::fmt::Debug for ArcSwap<T> {
+    fn fmt(&self, f: &mut std::fmt::Formatter<'_>) -> std::fmt::Result {
+        f.write_str("ArcSwap(model)")
+    }
+}
+
+impl<T> ArcSwap<T> {
+    pub fn new(v: Arc<T>) -> Self {
+        ArcSwap {
+            cell: Mutex::new(v),
+        }
+    }
+
+    pub fn load(&self) -> Arc<T> {
+        yield_point(Y_BEFORE_LOAD);
+        let snap = self.cell.lock().unwrap().clone();
+        yield_point(Y_AFTER_LOAD);
+        snap
+    }
+
+    pub fn store(&self, v: Arc<T>) {
+        yield_point(Y_BEFORE_STORE);
+        let old = std::mem::replace(&mut *self.cell.lock().unwrap(), v);
+        // dropped outside the lock, as arc-swap does
+        drop(old);
+        yield_point(Y_AFTER_STORE);
+    }
+}
+
+// --------------------------------------------------------------------------
+// Door-openers for the routing units of lib.rs
+// --------------------------------------------------------------------------
+
+/// The private logger tree (`ConfiguredLogger`), unchanged, behind accessors.
+pub struct Tree(crate::ConfiguredLogger);
+
+impl Tree {
+    pub fn new(level: LevelFilter, appenders: Vec<usize>) -> Tree {
+        Tree(crate::ConfiguredLogger {
+            level,
+            appenders,
+            children: crate::FnvHashMap::default(),
+        })
+    }
+
+    pub fn add(&mut self, path: &str, appenders: Vec<usize>, additive: bool, level: LevelFilter) {
+        self.0.add(path, appenders, additive, level)
+    }
+
+    pub fn max_log_level(&self) -> LevelFilter {
+        self.0.max_log_level()
+    }
+
+    pub fn find_level(&self, path: &str) -> LevelFilter {
+        self.0.find(path).level
+    }
+
+    pub fn find_appenders(&self, path: &str) -> &[usize] {
+        &self.0.find(path).appenders
+    }
+
+    pub fn find_enabled(&self, path: &str, level: Level) -> bool {
+        self.0.find(path).enabled(level)
+    }
+}
+
+/// One logger node plus the private `Appender` table: the fan-out unit
+/// (`ConfiguredLogger::log` + `Appender::append`).
+pub struct FanOut {
+    node: crate::ConfiguredLogger,
+    appenders: Vec<crate::Appender>,
+}
+
+impl FanOut {
+    pub fn new(
+        level: LevelFilter,
+        attached: Vec<usize>,
+        appenders: Vec<(Box<dyn Append>, Vec<Box<dyn Filter>>)>,
+    ) -> FanOut {
+        FanOut {
+            node: crate::ConfiguredLogger {
+                level,
+                appenders: attached,
+                children: crate::FnvHashMap::default(),
+            },
+            appenders: appenders
+                .into_iter()
+                .map(|(appender, filters)| crate::Appender { appender, filters })
+                .collect(),
+        }
+    }
+
+    /// Runs the real `ConfiguredLogger::log`; returns the collected errors.
+    pub fn log(&self, record: &Record) -> Vec<anyhow::Error> {
+        match self.node.log(record, &self.appenders) {
+            Ok(()) => Vec::new(),
+            Err(errs) => errs,
+        }
+    }
+}
+
+impl crate::Logger {
+    /// A `Handle` for a logger that is not installed globally.
+    pub fn verif_handle(&self) -> crate::Handle {
+        crate::Handle {
+            shared: self.0.clone(),
+        }
+    }
+}
